@@ -71,6 +71,7 @@ fn finish(tier: Tier, rep: &mut Report) {
         ("observed_no_431_because_client_limit_below_42", 3),
         ("settings_mode[never]", 50),
         ("late_settings_applied_while_held", 50),
+        ("late_settings_applied_while_send_request_waits_for_a_stream", 20),
     ] {
         if rep.get(k) < floor {
             rep.inconclusive(format!("{} = {} below floor {}", k, rep.get(k), floor));
@@ -187,10 +188,8 @@ fn normalise(mut c: Scn) -> Option<Scn> {
         if c.kind == Kind::Trailers && c.mode == SettingsMode::Applied && c.peer_limit < own_head(c.h3_server) {
             return None;
         }
-        if c.mode == SettingsMode::Late && c.kind == Kind::Head && !c.h3_server {
-            // a client's request stream does not exist before its head is sent
-            return None;
-        }
+        // Late + client + head: a client's request stream does not exist before its head is sent;
+        // the "late" moment is then *inside* send_request, while it waits for stream credit
     }
     if c.recv && c.mode == SettingsMode::Late {
         return None;
@@ -243,7 +242,16 @@ fn run_scn(c: &Scn, seed: u64, rep: &mut Report) {
         raw_control = id;
     }
     // Late: the application is held right before the send under test; SETTINGS arrive meanwhile
-    let hold: Option<&'static str> = if c.mode == SettingsMode::Late {
+    let during_open = c.mode == SettingsMode::Late && c.kind == Kind::Head && !c.h3_server && !c.recv;
+    if during_open {
+        // no request stream can be opened until the monitor grants credit
+        let mut n = lock(&net);
+        n.sides[CLIENT].bidi_credit = 0;
+        n.sides[CLIENT].credit_grants_left = 0;
+    }
+    let hold: Option<&'static str> = if during_open {
+        None
+    } else if c.mode == SettingsMode::Late {
         Some(match c.kind {
             Kind::Head => "send_response",
             Kind::Trailers => "send_trailers",
@@ -351,18 +359,26 @@ fn run_scn(c: &Scn, seed: u64, rep: &mut Report) {
     if c.mode == SettingsMode::Late {
         // phase 3: the stream exists and the application is held before the send: now the peer's
         // SETTINGS arrive and are applied, then the send goes ahead
-        let held = probe.open().values().any(|(op, _)| *op == "idle(held by the monitor)");
+        let held = if during_open {
+            // send_request is waiting for a stream
+            probe.open().values().any(|(op, _)| *op == "send_request") && lock(&net).sides[CLIENT].open_blocked_bidi
+        } else {
+            probe.open().values().any(|(op, _)| *op == "idle(held by the monitor)")
+        };
         if !held {
             rep.count("late_settings_hold_not_reached");
             return;
         }
-        rep.count("late_settings_applied_while_held");
+        rep.count(if during_open { "late_settings_applied_while_send_request_waits_for_a_stream" } else { "late_settings_applied_while_held" });
         sched.add_script(vec![raw::step_write(raw_side, raw_control, rf::settings_frame(&[(rf::S_MAX_FIELD_SECTION_SIZE, c.peer_limit)]))]);
         if sched.run(400_000) == RunEnd::StepCap {
             rep.inconclusive("step cap (phase 3)");
             return;
         }
         probe.gate2_open();
+        if during_open {
+            lock(&net).sides[CLIENT].credit_grants_left = 1;
+        }
         if sched.run(3_000_000) == RunEnd::StepCap {
             rep.inconclusive("step cap (phase 4)");
             return;
